@@ -53,7 +53,13 @@ class SchedLock:
       self.owner = w
       w.ctl.note(w, ('acq', self))
       return True
-    w.park(('acquire', self), wait_lock=self)          # returns only when the lock is free and we were chosen
+    label = ('acquire', self)
+    if w.ctl.acquire_label is not None:
+      f = sys._getframe(1)
+      if f.f_code.co_name == '__enter__' and f.f_code.co_filename == __file__:
+        f = f.f_back
+      label = w.ctl.acquire_label(self, f)
+    w.park(label, wait_lock=self)                      # returns only when the lock is free and we were chosen
     if self.owner is not None:
       raise SchedulerError('controller released %r onto a held lock' % (w,))
     self.owner = w
@@ -147,7 +153,8 @@ class Controller:
   strategy(ctl, enabled_workers) -> Worker.
   """
 
-  def __init__(self, fns, strategy, gate_of, accept_code, max_steps=200000, step_timeout=30.0):
+  def __init__(self, fns, strategy, gate_of, accept_code, acquire_label=None, max_steps=200000, step_timeout=30.0):
+    self.acquire_label = acquire_label
     self.workers = [Worker(self, i, f) for i, f in enumerate(fns)]
     self.strategy = strategy
     self.gate_of, self.accept_code = gate_of, accept_code
